@@ -50,6 +50,12 @@ THEOREMS = [
     'C04_tr_card_12', 'C04_tr_card_star_12', 'C04_m1_only', 'C04_inline_12',
     'C04_inline_number', 'C04_implicit_surface',
     'C04_implicit_surface_value', 'C04_frame_transform_sq',
+    'C04_compose_affine', 'C04_compose_mcnp_iff',
+    'C04_compose_not_mcnp_composition_in_general',
+    'C04_compose_translation_second', 'C04_lattice_filltr_fill',
+    'C04_lattice_filltr_trcl', 'C04_frame_transform_torus_total',
+    'C04_adjust_matrix_near_orthonormal', 'C04_adjust_matrix_idempotent',
+    'C04_trcl_cell', 'C04_transformation_law', 'C04_convert_law',
 ]
 TRUSTED = [
     'hand-written model coq/C04/Model.v (modelled, tied by execution only)',
@@ -932,7 +938,10 @@ def run(res, tier, seed, proofs_ok):
     tie_surfaces(res, rng, 2600 if quick else 26000, pool)
     tie_trcl(res, rng, 400 if quick else 4000)
     tie_implicit(res, rng, 200 if quick else 2000)
-    sweep_decks(res, rng, 70 if quick else 900)
+    tie_lattice(res, rng, 40 if quick else 400)
+    with PotRecorder() as recorder:
+        sweep_decks(res, rng, 70 if quick else 900)
+    tie_pot(res, recorder.records)
 
 
 def report_tie(res, name, n, bad, errs, describe):
@@ -1213,6 +1222,271 @@ def tie_surfaces(res, rng, n, pool):
                           {'input': {'mn': meta[i][0], 'params': meta[i][1],
                                      'tr': meta[i][2], 'frame': meta[i][3]},
                            'observed': str(meta[i][4])}))
+
+
+# ---------------------------------------------------------------------------
+# develop_lattice: the two call sites of compose_transform
+# ---------------------------------------------------------------------------
+
+def lattice_deck(rng):
+    '''A 1-D or 2-D LAT=1 lattice with a fill transformation, a TRCL (by
+    number or inline) or neither.'''
+    pitch = rng.choice([1.0, 1.5, 2.0])
+    two_d = rng.random() < 0.5
+    mode = rng.choice(['fill', 'fill', 'trcl', 'trcl', 'trclnum', 'none',
+                       'fill3'])
+    spec = tr_spec(rng)
+    toks = ' '.join(deckmod.num(v) for v in spec['print'])
+    star = '*' if spec['star'] else ''
+    rng_x = (rng.randint(-2, 0), rng.randint(0, 2))
+    rng_y = (rng.randint(-1, 0), rng.randint(0, 1)) if two_d else (0, 0)
+    n = (rng_x[1] - rng_x[0] + 1) * (rng_y[1] - rng_y[0] + 1)
+    univs = ' '.join([rng.choice(['5', '6'])]
+                     + [rng.choice(['5', '5', '6', '1', '0'])
+                        for _ in range(n - 1)])
+    fill = (f'fill={rng_x[0]}:{rng_x[1]} {rng_y[0]}:{rng_y[1]} 0:0 '
+            + univs)
+    data = ''
+    if mode == 'fill':
+        fill = star + fill + f' ({toks})'
+    elif mode == 'fill3':
+        fill += ' (' + ' '.join(deckmod.num(v) for v in spec['O']) + ')'
+    elif mode == 'trcl':
+        fill += f' {star}trcl=({toks})'
+    elif mode == 'trclnum':
+        fill += ' trcl=7'
+        data = f'{star}tr7 {toks}\n'
+    surf = f'-1 2 -3 4' if two_d else '-1 2'
+    deck = (f'lattice deck {mode}\n1 0 -10 fill=1 imp:n=1\n'
+            f'2 0 {surf} lat=1 u=1 {fill} imp:n=1\n'
+            '3 0 -20 u=5 imp:n=1\n4 0 20 u=5 imp:n=1\n'
+            '6 0 -21 u=6 imp:n=1\n7 0 21 u=6 imp:n=1\n'
+            '5 0 10 imp:n=0\n\n10 so 30\n'
+            f'1 px {pitch / 2}\n2 px {-pitch / 2}\n'
+            f'3 py {pitch / 2}\n4 py {-pitch / 2}\n'
+            '20 s 0.3 0 0 0.2\n21 c/z 0.1 0.1 0.15\n\n' + data)
+    return mode, deckmod.wrap(deck) if False else deck
+
+
+def tie_lattice(res, rng, n):
+    from t4_geom_convert.Kernel.Volume import CellConversion as CC
+    orig_dev = CC.CellConversion.develop_lattice
+    orig_ct = CC.CellConversion.cell_transform
+    orig_comp = CC.compose_transform
+    rec, calls = [], []
+
+    def comp(t1, t2):
+        out = orig_comp(t1, t2)
+        calls.append(([float(v) for v in t1], [float(v) for v in t2],
+                      [float(v) for v in out]))
+        return out
+
+    def dev(self, key):
+        cell = self.dic_cell_mcnp[key]
+        pairs = []
+
+        def ctr(slf, k, tr, cache=True):
+            new_key = orig_ct(slf, k, tr, cache=cache)
+            if k == key and not cache:
+                pairs.append((new_key, [float(v) for v in tr]))
+            return new_key
+        filltr = [float(v) for v in cell.filltr] if cell.filltr else []
+        trcls = [[float(v) for v in t] for t in (cell.trcl or [])]
+        CC.CellConversion.cell_transform = ctr
+        try:
+            orig_dev(self, key)
+        finally:
+            CC.CellConversion.cell_transform = orig_ct
+        for new_key, tr in pairs:
+            rec.append((filltr, trcls, tr[:3],
+                        [float(v) for v in self.dic_cell_mcnp[new_key].filltr]))
+    CC.compose_transform = comp
+    CC.CellConversion.develop_lattice = dev
+    decks = []
+    try:
+        for _ in range(n):
+            mode, text = lattice_deck(rng)
+            k0 = len(rec)
+            conv = impl.convert(text)
+            res.seen(text)
+            res.count(f'lattice:{mode}:{"ok" if conv.ok else conv.exc}')
+            if not conv.ok:
+                res.violation('impl-violation', f'lattice deck ({mode}) '
+                              f'rejected: {conv.exc}: {conv.msg[:150]}',
+                              {'input': {'deck': text}}, found_input=True)
+            decks.extend([text] * (len(rec) - k0))
+    finally:
+        CC.compose_transform = orig_comp
+        CC.CellConversion.develop_lattice = orig_dev
+        CC.CellConversion.cell_transform = orig_ct
+    # independent oracle: the element's fill transformation, as an MCNP point
+    # map, is "fill transformation (else TRCL), then translate to the element"
+    for (filltr, trcls, transl, out), text in zip(rec, decks):
+        first = filltr or (trcls[0] if trcls else
+                           [0.0] * 3 + [1.0, 0, 0, 0, 1.0, 0, 0, 0, 1.0])
+        want = [a + b for a, b in zip(first[:3], transl)] + list(first[3:12])
+        if len(out) != 12 or max(abs(a - b) for a, b in zip(out, want)) > 1e-9:
+            res.violation('impl-violation', 'lattice element at '
+                          f'{transl}: fill transformation {out} is not '
+                          f'"{first} then translate"',
+                          {'input': {'deck': text, 'element': transl}},
+                          found_input=True)
+    cases = [cpair(cfl(f), clist(cfl(t) for t in ts), cv3(tl), cfl(out))
+             for f, ts, tl, out in rec]
+    bad, errs = common.run_case_files(
+        'c04_lattice', HEADER,
+        'list float * list (list float) * V3 float * list float',
+        'check_lattice_filltr', cases)
+    report_tie(res, 'lattice_filltr', len(cases), bad, errs,
+               lambda i: (f'develop_lattice filltr={rec[i][0]} trcl={rec[i][1]} '
+                          f'element {rec[i][2]} -> {rec[i][3]}',
+                          {'input': {'deck': decks[i]},
+                           'observed': str(rec[i])}))
+    bad, errs = common.run_case_files(
+        'c04_callsite', HEADER, 'list float', 'check_second_is_translation',
+        [cfl(t2) for _t1, t2, _o in calls])
+    res.obligation(f'call sites: second argument of compose_transform is a '
+                   f'pure translation in all {len(calls)} recorded calls '
+                   '(hypothesis of C04_compose_translation_second)',
+                   not bad and not errs, f'{len(bad)} calls {errs[:1]}')
+    for idx in bad[:3]:
+        res.violation('correspondence', 'compose_transform called with a '
+                      f'second argument that is not a translation: {calls[idx]}',
+                      {'theorem_or_correspondence':
+                       'C04_compose_translation_second',
+                       'observed': str(calls[idx])}, found_input=False)
+    bad, errs = common.run_case_files(
+        'c04_compose2', HEADER, 'list float * list float * list float',
+        'check_compose', [cpair(cfl(a), cfl(b), cfl(o)) for a, b, o in calls])
+    report_tie(res, 'compose(call sites)', len(calls), bad, errs,
+               lambda i: (f'compose_transform{calls[i][:2]}',
+                          {'observed': str(calls[i])}))
+
+
+# ---------------------------------------------------------------------------
+# apply_trcl / pot_transform recorded on whole conversions
+# ---------------------------------------------------------------------------
+
+class PotRecorder:
+    '''Wraps CellConversion.apply_trcl while decks are converted and records
+    (TRCL list, expression, new_surf_key, dictionary entries) before and after.'''
+
+    def __init__(self):
+        self.records = []
+
+    def __enter__(self):
+        from t4_geom_convert.Kernel.Volume import CellConversion as CC
+        self.cc = CC
+        self.orig = CC.CellConversion.apply_trcl
+        rec = self
+
+        def wrapped(conv, trcls, geometry):
+            before = rec.snapshot(conv, geometry)
+            key0 = conv.new_surf_key
+            out = rec.orig(conv, trcls, geometry)
+            if before is not None and trcls:
+                news = []
+                ok = True
+                for k in range(conv.new_surf_key, key0, -1):
+                    entry = rec.entry(conv.dic_surf_mcnp[k])
+                    ok = ok and entry is not None
+                    news.append((k, entry))
+                tree1 = rec.tree(out)
+                if ok and tree1 is not None:
+                    rec.records.append((
+                        [[float(v) for v in t] for t in trcls], before[0],
+                        key0, before[1], tree1, conv.new_surf_key, news))
+            return out
+        CC.CellConversion.apply_trcl = wrapped
+        return self
+
+    def __exit__(self, *exc):
+        self.cc.CellConversion.apply_trcl = self.orig
+
+    def tree(self, node):
+        from MIP.geom.semantics import Surface
+        from t4_geom_convert.Kernel.Volume.CellMCNP import CellRef
+        if isinstance(node, Surface):
+            return None if node.sub is not None else ('s', int(node))
+        if isinstance(node, int):
+            return ('s', node)
+        if isinstance(node, CellRef):
+            return ('c', int(node.cell))
+        if isinstance(node, (tuple, list)):
+            if node[0] == '^':
+                return ('n', int(node[1]))
+            args = [self.tree(a) for a in node[1:]]
+            if any(a is None for a in args) or node[0] not in ('*', ':'):
+                return None
+            return (node[0], args)
+        return None
+
+    def entry(self, parts):
+        out = []
+        for surf, side in parts:
+            ms = frame_form(surf)
+            if ms is None:
+                return None
+            out.append((ms, int(side)))
+        return out
+
+    def leaves(self, tree, acc):
+        if tree[0] == 's':
+            acc.add(abs(tree[1]))
+        elif tree[0] in ('*', ':'):
+            for a in tree[1]:
+                self.leaves(a, acc)
+        return acc
+
+    def snapshot(self, conv, geometry):
+        tree = self.tree(geometry)
+        if tree is None:
+            return None
+        table = []
+        for k in sorted(self.leaves(tree, set())):
+            if k not in conv.dic_surf_mcnp:
+                return None
+            entry = self.entry(conv.dic_surf_mcnp[k])
+            if entry is None:
+                return None
+            table.append((k, entry))
+        return tree, table
+
+
+def ctree(tree):
+    if tree[0] == 's':
+        return f'(GSurf {cz(tree[1])})'
+    if tree[0] == 'c':
+        return f'(GCell {cz(tree[1])})'
+    if tree[0] == 'n':
+        return f'(GCompl {cz(tree[1])})'
+    op = 'GInter' if tree[0] == '*' else 'GUnion'
+    return f'(GOp {op} {clist(ctree(a) for a in tree[1])})'
+
+
+def ctable(table):
+    return clist(cpair(cz(k), clist(cpair(cmsurf(ms), cz(sd))
+                                    for ms, sd in entry))
+                 for k, entry in table)
+
+
+def tie_pot(res, records):
+    cases = []
+    for trcls, tree0, key0, table, tree1, key1, news in records:
+        cases.append(cpair(clist(cfl(t) for t in trcls), ctree(tree0),
+                           cz(key0), ctable(table),
+                           cpair(ctree(tree1), cz(key1), ctable(news))))
+        res.seen(('pot', str(tree0), trcls))
+        res.count(f'pot:leaves={min(len(news), 6)}')
+    bad, errs = common.run_case_files(
+        'c04_pot', HEADER,
+        'list (list float) * gtree * Z * list (Z * list (msurf float * Z)) '
+        '* (gtree * Z * list (Z * list (msurf float * Z)))',
+        'check_pot', cases)
+    report_tie(res, 'apply_trcl', len(cases), bad, errs,
+               lambda i: (f'apply_trcl {records[i][1]} by {records[i][0]} -> '
+                          f'{records[i][4]}',
+                          {'observed': str(records[i])[:1500]}))
 
 
 def gen_tokens(rng):
